@@ -78,3 +78,16 @@ CASES = [
             "   mArguments.checkMandatoryCardinality();\n   mSubGroupArgs.checkMandatoryCardinality();\n   const_cast< Handler*>( this)->mConstraints.checkRequired();\n   checkGlobalConstraints();\n\n} // Handler::checkMissingMandatoryCardinality"),
     ]),
 ]
+
+K = 'src/library/prog_args/detail/argument_key.cpp'
+_SW = "          && (mWord.compare( 0, other.mWord.length(), other.mWord) == 0);"
+CASES += [
+    dict(id='c05-startswith-rfind-no-pos', prop='C05', file=K, expect='R4', old=_SW, new="          && (mWord.rfind( other.mWord) == 0);"),
+    dict(id='c05-startswith-equal', prop='C05', file=K, expect='R4', old=_SW, new="          && (mWord.compare( 0, mWord.length(), other.mWord) == 0);"),
+    dict(id='c05-startswith-reversed', prop='C05', file=K, expect='R4', old=_SW, new="          && (other.mWord.compare( 0, mWord.length(), mWord) == 0);"),
+    dict(id='c05-startswith-shorter', prop='C05', file=K, expect='R4', old=_SW,
+         new="          && (mWord.compare( 0, std::min( mWord.length(), other.mWord.length()), other.mWord, 0, std::min( mWord.length(), other.mWord.length())) == 0);"),
+    dict(id='c05-startswith-from-one', prop='C05', file=K, expect='R4', old=_SW, new="          && (mWord.compare( 1, other.mWord.length(), other.mWord) == 0);"),
+    dict(id='c05-eq-startswith-rfind0', prop='C05', file=K, expect=None, old=_SW, new="          && (mWord.rfind( other.mWord, 0) == 0);"),
+    dict(id='c05-eq-startswith-find', prop='C05', file=K, expect=None, old=_SW, new="          && (mWord.find( other.mWord) == 0);"),
+]
